@@ -8,7 +8,7 @@ EXTENDS FzfScreen, Json, IOUtils
 
 CONSTANTS Widths, Heights, Layouts, Infos, Seps, Headers, Hlines, HeaderFirsts, Inputless, Pointers, Markers,
           Ellipses, Lists, Multis, Queries, MaxCount, Tracks,
-          Hscrolls, HscrollOffs, KeepRights, Scrollbars, Borders, Patterns,
+          Hscrolls, HscrollOffs, KeepRights, Scrollbars, Borders, Patterns, Tabstops,
           Acts          \* enabled steps: subset of {"edit", "move", "toggle", "list", "resize", "vis", "pattern"}
 
 VARIABLES g, c, s
@@ -19,13 +19,18 @@ TextOf(id) == CASE id = 0 -> <<"a", "b">>
                 [] id = 2 -> <<"W", "i", "W", "x">>                                                 \* "W" is wide in MC
                 [] id = 3 -> <<>>
                 [] id = 4 -> <<"e", "x", "^", "a", "c", "t", "l", "y", "9", "!">>                     \* 9 columns ("^" is zero-width in MC)
+                [] id = 6 -> <<"a", "b", Tab, "X", "|">>                                              \* TABs: after, between, before the
+                [] id = 7 -> <<"a", Tab, "b", Tab, "l", "o">>                                         \* characters a pattern matches
+                [] id = 8 -> <<Tab, "a", "b", "c", "d", "e", "f", "g", Tab, "Z">>
+                [] id = 9 -> <<"W", "i", Tab, Tab, "e", "n", "d">>                                   \* a wide cell before a TAB; a TAB on a tab stop
                 [] OTHER -> <<">", " ", "t">>
 Wide == {"W"}
 Zero == {"^"}
 Geoms == [w : Widths, h : Heights, wide : {Wide}, zero : {Zero}]
 Cfgs == [layout : Layouts, info : Infos, sep : Seps, header : Headers, hlines : Hlines, headerFirst : HeaderFirsts,
          inputless : Inputless, prompt : {<<">", " ">>}, pointer : Pointers, marker : Markers, ellipsis : Ellipses,
-         hscroll : Hscrolls, hscrollOff : HscrollOffs, keepRight : KeepRights, scrollbar : Scrollbars, border : Borders]
+         hscroll : Hscrolls, hscrollOff : HscrollOffs, keepRight : KeepRights, scrollbar : Scrollbars, border : Borders,
+         tabstop : Tabstops]
 TextsOf(l) == [i \in 1..Len(l) |-> TextOf(l[i])]
 
 (* printList -> constrain: the current line is kept inside the displayed window *)
@@ -49,7 +54,7 @@ gi == Inner(g, c)                  \* the finder's area
 ce == Eff(s, c)                    \* the configuration in effect
 
 (* a new query with the cursor somewhere in it; the prompt is redrawn (updatePromptOffset) *)
-Edit == \E q \in Queries : \E x \in {0, Len(q) \div 2, Len(q)} :
+Edit == \E q \in Queries : \E x \in {0, 1, Len(q) \div 2, Len(q) - 1, Len(q)} \cap 0..Len(q) :
            LET s1 == [s EXCEPT !.input = q, !.cx = x] IN
            s' = [s1 EXCEPT !.xoffset = PromptOffset(s1, gi, ce)] /\ UNCHANGED <<g, c>>
 Move == \E d \in {-1, 1} : s' = View([s EXCEPT !.cy = s.cy + d], g, c) /\ UNCHANGED <<g, c>>
@@ -100,8 +105,8 @@ InvVisAlgebra == /\ \A a \in {"toggle-header", "toggle-input"} : VisStep(VisStep
 InvTextRoom == \A r \in RowsOf("item", gi, ce) :
                   LET k == SlotAt(r - 1, gi, ce).ix IN
                   s.offset + k < N(s) =>
-                     TW(Window(s.texts[s.offset + k + 1], MatchEnd(s.texts[s.offset + k + 1], s.pattern), s.pattern = <<>>,
-                               TextRoom(gi, ce), ce, g), g) <= Max2(TextRoom(gi, ce), 0)
+                     TW(WindowT(s.texts[s.offset + k + 1], MatchEnd(s.texts[s.offset + k + 1], s.pattern), s.pattern = <<>>,
+                                TextRoom(gi, ce), ce, g), g) <= Max2(TextRoom(gi, ce), 0)
 
 ItemRows == RowsOf("item", gi, ce)
 PointerRows == {r \in ItemRows : IsPrefix(c.pointer, A[r])}
@@ -128,6 +133,33 @@ InvCursorVisible == /\ 0 <= s.xoffset /\ s.xoffset <= s.cx
                     /\ QBefore(s, gi, ce) = Sub(s.input, s.xoffset + 1, s.cx)
                     /\ TW(QShown(s, gi, ce), g) <= PromptRoom(gi, ce)
 InvRTrim == \A r \in 1..gi.h : A[r] = <<>> \/ A[r][Len(A[r])] # " "
+(* TABs: the width of a text is the width of its expansion; the expansion of a head is a head of the expansion;     *)
+(* the cut that never splits a TAB is the longest head whose expansion fits; a text without TABs is left alone;     *)
+(* and the drawn row of a line does not depend on the pattern as long as lines are cut behind only.                  *)
+InvTab == (s.sel = <<>> /\ s.cy = 0 /\ s.pattern = <<>> /\ ~c.hscroll /\ ~c.keepRight /\ c.ellipsis = <<".", ".">>) => \A id \in 0..9 : LET t == TextOf(id) ts == c.tabstop IN
+             /\ TWT(t, ts, g) = TW(ExpandT(t, ts, g), g)
+             /\ ~HasTab(ExpandT(t, ts, g))
+             /\ (~HasTab(t) => ExpandT(t, ts, g) = t /\ TWT(t, ts, g) = TW(t, g))
+             /\ \A k \in 0..Len(t) : IsPrefix(ExpandT(Sub(t, 1, k), ts, g), ExpandT(t, ts, g))
+             /\ \A lim \in -1..(TWT(t, ts, g) + 1) :
+                   /\ TakeWT(t, lim, ts, g) = TakeWTDecl(t, lim, ts, g)
+                   /\ \A pre \in 0..2 : LET r == TakeRightWT(t, lim, pre, ts, g) IN    \* the longest proper tail that fits behind pre columns
+                         /\ r = Sub(t, Len(t) - Len(r) + 1, Len(t))
+                         /\ TW(ExpandAt(r, pre, ts, g), g) = TWAt(r, pre, ts, g)
+                         /\ (HasTab(t) /\ lim >= 0 /\ TWT(t, ts, g) > lim =>
+                               /\ TWAt(r, pre, ts, g) <= lim /\ Len(r) < Len(t)
+                               /\ (Len(r) < Len(t) - 1 => TWAt(Sub(t, Len(t) - Len(r), Len(t)), pre, ts, g) > lim))
+             /\ \A i \in 1..Len(t) : t[i] = Tab =>                       \* every TAB ends on a tab stop, and is never empty
+                   LET e == TWT(Sub(t, 1, i), ts, g) IN e % ts = 0 /\ e > TWT(Sub(t, 1, i - 1), ts, g) /\ e - TWT(Sub(t, 1, i - 1), ts, g) <= ts
+(* EXPECTED TO FAIL (MC_Screen_dev_tabpre.cfg): the rendition that measures the part cut in front as if the ellipsis  *)
+(* were two columns wide (finding "tab-stops-assume-two-column-ellipsis") stays within the room for the text          *)
+InvTabPre2Room == \A r \in RowsOf("item", gi, ce) :
+                     LET k == SlotAt(r - 1, gi, ce).ix IN
+                     s.offset + k < N(s) =>
+                        TW(WindowTP(s.texts[s.offset + k + 1], MatchEnd(s.texts[s.offset + k + 1], s.pattern), s.pattern = <<>>,
+                                    TextRoom(gi, ce), ce, g, TRUE), g) <= Max2(TextRoom(gi, ce), 0)
+InvTabNoPattern == ~c.hscroll => \A id \in 0..9 : \A me \in 0..Len(TextOf(id)) : \A np \in BOOLEAN :
+                      WindowT(TextOf(id), me, np, TextRoom(gi, ce), ce, g) = WindowT(TextOf(id), 0, TRUE, TextRoom(gi, ce), ce, g)
 
 
 -----------------------------------------------------------------------------
@@ -158,7 +190,7 @@ CfgCode(cc) == Len(cc.header) + 2 * Len(cc.hlines) + 3 * B(cc.headerFirst) + 5 *
                + 11 * (CASE cc.layout = "default" -> 0 [] cc.layout = "reverse" -> 1 [] OTHER -> 2)
                + 13 * (CASE cc.info = "default" -> 0 [] cc.info = "inline" -> 1 [] cc.info = "hidden" -> 2 [] cc.info = "right" -> 3 [] OTHER -> 4)
                + 17 * Len(cc.ellipsis) + 19 * cc.hscrollOff + 23 * B(cc.hscroll) + 29 * B(cc.keepRight) + 31 * Len(cc.scrollbar)
-               + 37 * B(cc.border)
+               + 37 * B(cc.border) + 41 * cc.tabstop
 InSlice(cc) == CfgCode(cc) % Slices = Slice % Slices
 
 (* the sections' visibility is part of the exported state: <<showHeader, hideInput>>; the driver reaches it with *)
@@ -204,6 +236,75 @@ GenNextH == /\ IsSeed /\ UNCHANGED <<g, c>>
                            pattern |-> p], g, c)
 (* every exported line / pattern pair is in the domain where the position of the match is beyond doubt *)
 InvGenHDetermined == IsSeed \/ \A i \in 1..N(s) : Determined(s.texts[i], s.pattern, g) /\ (s.pattern # <<>> => MatchEnd(s.texts[i], s.pattern) > 0)
+(* Export of lines with TABs (Gen_ScreenT*.cfg): the search is enabled (--no-sort: the list is the input), every    *)
+(* line contains the letters a and b exactly once, in this order, with TABs after / between / before them; the      *)
+(* query is none, a, b, ab.  Windows from 20 columns upwards in steps of one, so that for each line and tabstop     *)
+(* there are windows the expanded line fits exactly and by one column less.  The rows are predicted from (line,     *)
+(* tabstop, room) - and the pattern only where horizontal scrolling cuts in front.                                   *)
+TextT(id) == CASE id = 0 -> <<"a", "b", Tab, "X", "|">>
+               [] id = 1 -> <<"a", "b", "c", "d", "e", "f", "g", "h", "i", "j", "k", "l", "m", "n", "o", Tab, "Z", "|">>
+               [] id = 2 -> <<"a", Tab, "b", Tab, "c", "d", "e", "f", "g", "h", Tab, "V", "|">>
+               [] id = 3 -> <<Tab, "a", "b", Tab, "e", "n", "d", " ", "o", "f", " ", "l", "i", "n", "e">>
+               [] id = 4 -> <<"x", Tab, "y", Tab, "a", "b">>
+               [] id = 5 -> <<"a", "b", Tab, "0", "1", "2", "3", "4", "5", "6", "7", "8", "9", Tab, "c", "d", "e", "f", "g", "h", "i", "j", "k", "l", "m", "n", "o", "p", "q", "r", Tab, "E", "N", "D">>
+               [] id = 6 -> <<"0", "1", "2", "3", Tab, "5", "6", "7", "8", "9", Tab, "a", Tab, Tab, "b">>
+               [] OTHER -> <<"n", "o", " ", "T", "s", " ", "h", "e", "r", "e", ":", " ", "a", "-", "b">>
+TextsT(l) == [i \in 1..Len(l) |-> TextT(l[i])]
+MCListsT == {<<0, 1, 2, 3, 4, 5, 6, 7>>}
+GenPatternsT == {<<>>, <<"a">>, <<"b">>, <<"a", "b">>}
+GenInitT == g \in Geoms /\ c \in {cc \in Cfgs : InSlice(cc)} /\ s = Seed
+GenNextT == /\ IsSeed /\ UNCHANGED <<g, c>>
+            /\ \E l \in Lists, p \in GenPatternsT : \E k \in {0, Len(l) - 1} :
+                 s' = View([input |-> p, cx |-> Len(p), xoffset |-> 0, list |-> l, texts |-> TextsT(l), sel |-> <<>>, multi |-> 0,
+                            cy |-> k, offset |-> 0, count |-> Len(l), track |-> 0, showHeader |-> TRUE, hideInput |-> FALSE,
+                            pattern |-> p], g, c)
+NoTab(t) == SelectSeq(t, LAMBDA x : x # Tab)
+InvGenTDetermined == IsSeed \/ \A i \in 1..N(s) : Determined(NoTab(s.texts[i]), s.pattern, g) /\ (s.pattern # <<>> => MatchEnd(s.texts[i], s.pattern) > 0)
+(* how many of the listed lines fit exactly or miss by one column (coverage figure of the export) *)
+FitEdge == Cardinality({i \in 1..N(s) : TWT(s.texts[i], c.tabstop, g) - TextRoom(gi, ce) \in {0, 1}})
+GenCaseT == IsSeed \/ PrintT(<<"CASE", ToJson([w |-> g.w, h |-> g.h, cfg |-> c, st |-> [s EXCEPT !.texts = <<>>],
+                                     items |-> s.texts, maxItems |-> MaxItems(gi, ce), rows |-> R, fitEdge |-> FitEdge])>>)
+
+(* Export of prompt lines for queries that are wider than the prompt area (Gen_ScreenP*.cfg).  The queries - with   *)
+(* East Asian wide characters at the start, in the middle, at the end - come from a file the driver writes          *)
+(* (environment VERIF_PIN: one JSON record [queries |-> <<[q |-> cells, pos |-> cursor positions]>>, wide |-> cells]) *)
+(* because a module is plain ASCII.  A case is a walk of the cursor: the query is set and the cursor put at its      *)
+(* beginning (one rendition: offset 0), then moved to each position of the walk in turn (beginning-of-line /          *)
+(* end-of-line / forward-char / backward-char; one rendition each: the scroll offset is carried along, PromptOffset). *)
+(* The search is disabled: the list stays as it is.                                                                   *)
+PIn == ndJsonDeserialize(IOEnv.VERIF_PIN)[1]
+GeomsP == [w : Widths, h : Heights, wide : {Range(PIn.wide)}, zero : {{}}]
+RECURSIVE WalkFrom(_, _, _, _, _)
+WalkFrom(st, walk, i, gg, cc) == IF i > Len(walk) THEN st
+                                 ELSE LET s1 == [st EXCEPT !.cx = walk[i]] IN
+                                      WalkFrom([s1 EXCEPT !.xoffset = PromptOffset(s1, gg, cc)], walk, i + 1, gg, cc)
+GenInitP == g \in GeomsP /\ c \in {cc \in GenCfgs : InSlice(cc)} /\ s = Seed
+GenNextP == /\ IsSeed /\ UNCHANGED <<g, c>>
+            /\ \E l \in Lists, qi \in 1..Len(PIn.queries) :
+                 LET q == PIn.queries[qi].q
+                     P == Range(PIn.queries[qi].pos)
+                     s0 == [input |-> q, cx |-> 0, xoffset |-> 0, list |-> l, texts |-> TextsOf(l), sel |-> <<>>, multi |-> 0,
+                            cy |-> 0, offset |-> 0, count |-> Len(l), track |-> 0, showHeader |-> TRUE, hideInput |-> FALSE,
+                            pattern |-> <<>>, walk |-> <<>>]
+                 IN \E walk \in {<<x>> : x \in P} \cup {<<x, y>> : x \in P, y \in P} \cup {<<x, y, x>> : x \in P, y \in P} :
+                      s' = [WalkFrom(s0, walk, 1, gi, Eff(s0, c)) EXCEPT !.walk = walk]
+(* what the walk claims: the cursor is visible after every step - the offset never passes it, the part shown is at   *)
+(* most PromptRoom columns wide - and a query that fits is shown whole as soon as the cursor has been at its start    *)
+InvWalk == IsSeed \/ (/\ 0 <= s.xoffset /\ s.xoffset <= s.cx
+                      /\ QBefore(s, gi, ce) = Sub(s.input, s.xoffset + 1, s.cx)
+                      /\ TW(QShown(s, gi, ce), g) <= PromptRoom(gi, ce)
+                      /\ TW(c.prompt, g) + TW(QBefore(s, gi, ce), g) < gi.w
+                      /\ (QueryFits(s, gi, ce) => s.xoffset = 0 /\ QShown(s, gi, ce) = s.input))
+InvFrameX == Exact => InvFrame
+GenCaseP == IsSeed \/ ~Exact \/ PrintT(<<"CASE", ToJson([w |-> g.w, h |-> g.h, cfg |-> c, st |-> [s EXCEPT !.texts = <<>>],
+                                     items |-> s.texts, maxItems |-> MaxItems(gi, ce), rows |-> R, walk |-> s.walk,
+                                     longer |-> ~QueryFits(s, gi, ce)])>>)
+MCListsTab == {<<6, 7, 8, 9, 1>>}
+MCHeadersC0 == {<<>>}
+MCListsD1 == {<<1, 0, 5>>}
+MCHeadersT == {<<>>, <<<<"h", Tab, "e", "a", "d", "e", "r", Tab, "x">>>>}
+MCPatternsTab == {<<>>, <<"a">>, <<"b">>, <<"e">>, <<"o">>}
+MCPatternsTabQ == {<<>>, <<"b">>, <<"o">>}
 MCListsH == {<<0, 1, 2, 3, 4, 5, 6>>}
 MCHeadersH == {<<>>, <<LongLine(75, "H")>>}
 MCScrollbars == {<<>>, <<"|">>}
@@ -230,11 +331,13 @@ MCHlinesC0 == {<<>>}
 MCLists == {<<>>, <<0>>, <<1, 0, 2>>, <<0, 1, 2, 3, 4, 5>>}
 MCListsQ == {<<>>, <<1, 0, 5>>, <<0, 1, 2, 3, 4>>}
 MCListsD == {<<>>, <<1, 0, 5>>}
-MCQueriesD == {<<>>, <<"a", " ", "W">>, <<"q", "u", "e", "r", "y", "l", "o", "n", "g", "e", "r">>}
+MCQueriesD == {<<>>, <<"a", " ", "W">>, <<"q", "u", "e", "r", "y", "l", "o", "n", "g", "e", "r">>,
+               <<"W", "W", "W", "q", "u", "e", "W", "r", "y", "W", "W">>}                 \* wide cells at the start, in the middle, at the end
 MCListsP == {<<>>, <<1, 0, 5, 2>>}
 MCListsC == {<<1, 2, 4, 5, 3>>}
 MCHeadersL == {<<<<"h", "e", "a", "d", "e", "r", " ", "t", "w", "o", " ", "!">>>>}
 MCQueriesC == {<<>>}
-MCQueries == {<<>>, <<"a">>, <<"a", " ", "W">>, <<"q", "u", "e", "r", "y", "l", "o", "n", "g", "e", "r">>}
+MCQueries == {<<>>, <<"a">>, <<"a", " ", "W">>, <<"q", "u", "e", "r", "y", "l", "o", "n", "g", "e", "r">>,
+              <<"W", "W", "W", "q", "u", "e", "W", "r", "y", "W", "W">>}
 MCQueriesQ == {<<>>, <<"a", " ", "W">>}
 =============================================================================
